@@ -206,6 +206,46 @@ def structural_reset(repo):
     return out
 
 
+FLAGS = ('flow_analysis_enabled', 'is_analysis', 'dynamic_params_depth')
+
+
+def structural_flag_switches(repo):
+    """temporary switches of per-Script flags are restored in a finally block, wherever they are written (also when
+    the switch is wrapped into a context manager or helper)"""
+    from pyvc import inventory as inv
+    out = []
+    for rel, path in inv.py_files(repo):
+        try:
+            tree = inv.parse(path)
+        except SyntaxError:
+            continue
+        for fn in [n for n in ast.walk(tree) if isinstance(n, (ast.FunctionDef, ast.AsyncFunctionDef))]:
+            if fn.name in ('__init__', 'reset_recursion_limitations'):
+                continue
+            writes = {}
+            for n in inv._walk_no_nested(fn):
+                tg = n.targets if isinstance(n, ast.Assign) else [n.target] if isinstance(n, ast.AugAssign) else []
+                for t in tg:
+                    if isinstance(t, ast.Attribute) and t.attr in FLAGS:
+                        writes.setdefault(t.attr, []).append(n)
+            for attr, ws in writes.items():
+                restored = False
+                for n in inv._walk_no_nested(fn):
+                    if isinstance(n, ast.Try) and n.finalbody:
+                        for m_ in n.finalbody:
+                            for x in ast.walk(m_):
+                                tg = x.targets if isinstance(x, ast.Assign) else [x.target] if isinstance(x, ast.AugAssign) else []
+                                if any(isinstance(t, ast.Attribute) and t.attr == attr for t in tg):
+                                    restored = True
+                out.append({'id': 'flag-restored:%s:%s' % (fn.name, attr), 'kind': 'frame', 'ok': restored,
+                            'definite': not restored,
+                            'label': '%s (%s) switches %s and restores it in a finally block: the flag cannot leak into '
+                                     'later queries on the same Script when the guarded code raises' % (fn.name, rel, attr)})
+    if not out:
+        out.append({'id': 'flag-restored', 'kind': 'frame', 'ok': None, 'label': 'no writer of a per-Script flag found'})
+    return out
+
+
 def _standin(repo, seed, tier):
     from pyvc.standin import run_standin
     return run_standin('C16', tier, seed, repo)
@@ -213,7 +253,7 @@ def _standin(repo, seed, tier):
 
 _standin.tiers = ('quick', 'thorough')
 BOUNDED = [_standin]
-STRUCTURAL = [structural_analysis_restore, structural_reset]
+STRUCTURAL = [structural_analysis_restore, structural_reset, structural_flag_switches]
 NOT_DECIDED = ['that the input order of completion names is hash-independent (value sets are frozensets of '
                'identity-hashed objects)', 'memo entries holding recursion defaults (order dependence through the cache)',
                'Name-level follow-up queries share one execution budget (F15)']
